@@ -298,7 +298,7 @@ def encode_plain_set(msgs):
     return b"".join(encode_entry(m.offset, encode_message(m.magic, 0, m.key, m.value, m.timestamp)) for m in msgs)
 
 
-def encode_wrapper(msgs, magic, codec=GZIP, wrapper_ts=None, inner=None, rel0=0, inner_attrs=0):
+def encode_wrapper(msgs, magic, codec=GZIP, wrapper_ts=None, inner=None, rel0=0, inner_attrs=0, members=1):
     """One compressed wrapper entry holding ``msgs`` (absolute offsets, ascending).
 
     Format 0: inner offsets are the absolute offsets.  Format 1: inner offsets are 0..n-1 relative to the
@@ -311,6 +311,13 @@ def encode_wrapper(msgs, magic, codec=GZIP, wrapper_ts=None, inner=None, rel0=0,
             # format 1: relative to the *original* first message of the wrapper, which compaction may have removed (rel0 > 0)
             off = m.offset if magic == 0 else m.offset - msgs[0].offset + rel0
             chunks.append(encode_entry(off, encode_message(magic, inner_attrs, m.key, m.value, m.timestamp)))
+        if members > 1 and len(chunks) > 1:
+            # a gzip stream of several members (RFC 1952 2.2; what a producer that flushes its compressor per
+            # chunk emits): readers concatenate the members
+            k = max(1, len(chunks) // members)
+            groups = [chunks[i:i + k] for i in range(0, len(chunks), k)]
+            wrapper = encode_message(magic, codec, None, b"".join(_gz(b"".join(g)) for g in groups), wrapper_ts)
+            return encode_entry(msgs[-1].offset, wrapper)
         inner = b"".join(chunks)
     wrapper = encode_message(magic, codec, None, _gz(inner), wrapper_ts)
     return encode_entry(msgs[-1].offset, wrapper)
